@@ -1,1 +1,70 @@
-//! Hooks for property C26 (empty unless needed).
+//! Hooks for property C26: drive the crate-private `HomeRelayWatch` (the value behind
+//! `Endpoint::home_relay_status`) with the write methods the relay actors use.
+use std::sync::Arc;
+
+use iroh_base::RelayUrl;
+use n0_error::AnyError;
+use n0_watcher::Watcher as _;
+
+use crate::socket::transports::{HomeRelayWatch, RelayConnectionState};
+
+/// Connection state in harness terms; `Disconnected(Some(tag))` carries an error whose text is `tag`.
+#[derive(Debug, Clone, PartialEq, Eq)]
+pub enum State {
+    Connecting,
+    Connected,
+    Disconnected(Option<String>),
+}
+
+impl State {
+    fn to_real(&self) -> RelayConnectionState {
+        match self {
+            State::Connecting => RelayConnectionState::Connecting,
+            State::Connected => RelayConnectionState::Connected,
+            State::Disconnected(tag) => RelayConnectionState::Disconnected {
+                last_error: tag.as_ref().map(|t| Arc::new(AnyError::from_string(t.clone()))),
+            },
+        }
+    }
+}
+
+/// The shared watchable, as cloned into the relay actor and every active relay actor.
+#[derive(Debug, Clone, Default)]
+pub struct Watch(HomeRelayWatch);
+
+impl Watch {
+    /// `RelayActor::on_network_change` with a new preferred relay: `HomeRelayWatch::set`.
+    pub fn set(&self, url: RelayUrl, state: State) {
+        self.0.verif_set(url, state.to_real())
+    }
+    /// `RelayActor::on_network_change` without preferred relay: `HomeRelayWatch::clear`.
+    pub fn clear(&self) {
+        self.0.verif_clear()
+    }
+    /// `ActiveRelayActor` status publication: `HomeRelayWatch::set_status`.
+    pub fn set_status(&self, url: &RelayUrl, state: State) {
+        self.0.verif_set_status(url, state.to_real())
+    }
+    fn conv(v: Option<crate::endpoint::RelayStatus>) -> Option<(RelayUrl, State)> {
+        v.map(|s| {
+            let st = if s.is_connected() {
+                State::Connected
+            } else if let Some(e) = s.last_error() {
+                State::Disconnected(Some(e.to_string()))
+            } else if s == crate::endpoint::RelayStatus::new(s.url().clone(), RelayConnectionState::Connecting) {
+                State::Connecting
+            } else {
+                State::Disconnected(None)
+            };
+            (s.url().clone(), st)
+        })
+    }
+    /// The advertised value as read through `HomeRelayWatch::get`.
+    pub fn get(&self) -> Option<(RelayUrl, State)> {
+        Self::conv(self.0.verif_get())
+    }
+    /// The advertised value as read through the public watcher (`HomeRelayWatch::watch`).
+    pub fn watched(&self) -> Option<(RelayUrl, State)> {
+        Self::conv(self.0.watch().get())
+    }
+}
